@@ -4,7 +4,12 @@ from .core import Job
 import os
 
 # methods that finish at L = 255 / 256 within the thorough budget (measured with CV_C10_BIG=1)
-BIG_OK = set()
+BIG_OK = {'api', 'append_s', 'append_sn', 'assign_s', 'at', 'back', 'clear', 'compare_s', 'contains_c', 'copy', 'ctor_s', 'ends_with_c',
+          'ends_with_s', 'eq', 'erase', 'find_c', 'find_first_not_of_c', 'find_first_of_c', 'find_last_not_of_c', 'find_last_of_c', 'front',
+          'index', 'it_deref', 'it_step', 'ne', 'opassign_s', 'pop_back', 'push_back', 'rfind_c', 'rit_deref', 'rit_step', 'starts_with_c', 'swap'}
+# of these, the ones that take < 10 s at both capacities also run in the quick tier
+BIG_QUICK = {'assign_s', 'at', 'back', 'clear', 'copy', 'ends_with_c', 'front', 'index', 'it_deref', 'it_step', 'opassign_s', 'pop_back',
+             'push_back', 'rit_deref', 'rit_step', 'starts_with_c', 'swap'}
 
 
 class Unit(fs.Unit):
@@ -39,13 +44,15 @@ def jobs(unit, tier, only=None):
                                    fs.make_build(unit, m, L, K, False, methods, S2=S2), backend='sat',
                                    unwind=K + L + S2 + 4, timeout=300 if tier == 'quick' else 2400, instance={'L': L, 'K': K, 'S2': S2}, bounded=None))
     # the 255/256 length-type boundary (uint8_t / uint16_t length field): "light" contracts (invariant + safety, no content
-    # ghosts) for the methods that finish there (measured); thorough tier only
-    if tier == 'thorough' or os.environ.get('CV_C10_BIG'):
+    # ghosts) for the methods that finish there (measured: 33 of 94 within 300 s); the fast ones also in the quick tier
+    if True:
         for L in (255, 256):
             unit.witness_size_type(L)
             unit.object_size(L, unit.scratch.dir)
             for m in methods:
-                if os.environ.get('CV_C10_BIG') or m.id in BIG_OK:
+                if getattr(m, 'cross', False):
+                    continue
+                if os.environ.get('CV_C10_BIG') or m.id in (BIG_OK if tier == 'thorough' else BIG_QUICK):
                     out.append(Job('c10_L%d_%s' % (L, m.id), 'FixedString<L>::' + m.call, 'cw_' + m.id,
                                    fs.make_build(unit, m, L, 4, False, methods, light=True), backend='sat', unwind=L + 8,
                                    timeout=int(os.environ.get('CV_C10_BIG_TIMEOUT', 1800)), instance={'L': L, 'K': 4, 'light': True}, object_bits=12))
